@@ -15,6 +15,10 @@ BASE = {
  'arrays': 'rock @1 with 9001, 2\nlet @1 at "k" be 3\nroll @1 into @2\nsay @2\nsay @1 at "k"\nsay @1\nlet @3 be @1\nrock @3 with 5\nsay @3\nsay @1\n',
  'distinct-names': 'Put 1 into @1\nPut 2 into @2\nPut 3 into @3\nsay @1\nsay @2\nsay @3\n',
  'suffix-forms': "@1's 9001\nsay @1\nit's 9002\nsay it\nsay @1\n@2 is 1\n@3 is 2\nthey're 3\nsay @3\nsay @2\nif @1 ain't nothing\nsay \"x\"\n\nsay @1's 9001\n",
+ 'duplicate-parameter': '@4 takes @1 and @1\ngive back @1\n\nsay 1\nsay @4 taking 1, 2\nsay 2\n',
+ 'redefinition': '@4 takes @1\ngive back 1\n\nsay 1\n@4 takes @2\ngive back 2\n\nsay @4 taking 1\n',
+ 'function-name-written': '@4 takes @1\ngive back @1\n\nsay 1\nPut 5 into @4\nsay 2\n',
+ 'variable-then-function': 'Put 9001 into @4\nsay @4\n@4 takes @1\ngive back @1\n\nsay 2\n',
  'aliases': 'let @1 be 9001\nlet @2 be nothing\nshout @1 without @2\nwhisper @1 of 2\nscream @1 between 2\nif @1 is as great as @2\nsay "ge"\nelse\nsay "lt"\n\nuntil @2 is as strong as 2\nbuild @2 up\n\nsay @2\nburn @1 into @3\nsay @3\ngive back @1\n',
 }
 NAMES = {
@@ -79,7 +83,12 @@ def h_meta(vm, mir, base_name, variant):
     holes = C04.mk_holes(vm, SPEC)
     d0 = describe_holes(holes)
     vm.describe = lambda m: dict(d0(m), template=base_name, variant=list(variant), original=orig, transformed=other)
-    p1 = instantiate(vm, mir, parsed_program(mir, orig), holes); p2 = instantiate(vm, mir, parsed_program(mir, other), holes)
+    p1 = instantiate(vm, mir, parsed_program(mir, orig), holes)
+    try: p2 = instantiate(vm, mir, parsed_program(mir, other), holes)
+    except Unmodelled as e:
+        if 'does not parse' not in str(e): raise
+        m = model_of(vm); vm.witness = {'meta-done'}
+        return [finding('violation', 'renaming-rejected', 'the transformed program is rejected by the parser although the original is accepted', vm.describe(m), vm.notes)]
     r1, o1, _ = exec_in_vm(vm, mir, p1); r2, o2, _ = exec_in_vm(vm, mir, p2)
     r1, r2 = conc(vm, r1), conc(vm, r2)
     out = []
